@@ -102,7 +102,7 @@ Section Gram.
 
   Theorem gram_psd n : psd_qf n (fun i j => inner (rho i) (rho j)).
   Proof.
-    split; [intros i j; apply inner_sym|]. intro c.
+    split; [intros i j _ _; apply inner_sym|]. intro c.
     pose proof (inner_pos E (lcomb n c)) as H.
     rewrite inner_lcomb_l in H.
     erewrite sumn_ext in H; [exact H|]. intros i _. cbn beta.
